@@ -121,8 +121,13 @@ def clip1(chk):
         is_tie = len(r.res) < 4 or r.res[3] == 'tie'
         if removed != (sign < 0):
             what = 'filter tie' if is_tie else 'vertex decided by the float filter alone'
-            chk.violation('impl-vs-model', '%s: clip_by_plane %s the vertex, the exact in-sphere determinant of the five snapped points has sign %d (record %d, %s)' % (what, r.res[0], sign, r.id, r.family), rp,
-                          key='clip1-decision' if is_tie else 'clip1-filter')
+            # a vertex whose three planes are nearly coaxial has an ill-conditioned float position: the filter's bound does not
+            # cover that error (root cause of finding F1); a wrong definite decision on a well-conditioned vertex is something else
+            nd = hex_to_float(r.res[4]) if len(r.res) > 4 else 1.0
+            ill = (not is_tie) and abs(nd) < 1e-5
+            chk.violation('impl-vs-model', '%s: clip_by_plane %s the vertex, the exact in-sphere determinant of the five snapped points has sign %d (record %d, %s%s)' % (
+                what, r.res[0], sign, r.id, r.family, ', determinant of the three plane normals %.3g' % nd if not is_tie else ''), rp,
+                          key='clip1-decision' if is_tie else ('clip1-filter ill-vertex' if ill else 'clip1-filter'))
             continue
         if sign == 0 and not is_tie:
             chk.violation('impl-vs-model', 'an exact tie (determinant 0 on the integer grid) was decided by the float filter alone instead of the exact predicate (record %d, %s)' % (r.id, r.family), rp, key='clip1-filter')
